@@ -46,10 +46,16 @@ PatternsOf(s) == IF Len(s) <= 2 THEN {Uniform(s, a) : a \in Atts} \cup {Mixed(s,
 \* binding patterns: every statement an assignment; the last / the first / every statement an
 \* expression statement
 UnbAt(p, K) == [k \in DOMAIN p |-> IF k \in K THEN Unb(p[k]) ELSE p[k]]
-BindingsOf(p) == {p, UnbAt(p, {Len(p)}), UnbAt(p, {1}), UnbAt(p, DOMAIN p)}
+BindingsOf(p) == {p, UnbAt(p, {Len(p)}), UnbAt(p, DOMAIN p)} \cup (IF Len(p) <= 2 THEN {UnbAt(p, {1})} ELSE {})
 \* a mutation needs a variable that holds an object
 WellFormed(p) == \A k \in DOMAIN p : p[k].op = "mut" => \E j \in 1..(k - 1) : p[j].op \in Objs /\ p[j].bnd
-ShapePrograms == {q \in UNION {BindingsOf(p) : p \in UNION {PatternsOf(s) : s \in OpSeqs}} : WellFormed(q)}
+\* ... of one-statement test cases with every attachment pattern, of two-statement ones with the
+\* patterns none / gen / first mixed one, of longer ones without attachments (last / every statement)
+UnbPatternsOf(s) == IF Len(s) = 1 THEN PatternsOf(s)
+                    ELSE IF Len(s) = 2 THEN {Uniform(s, "none"), Uniform(s, "gen"), Mixed(s, 0)}
+                    ELSE {Uniform(s, "none")}
+ShapePrograms == {q \in UNION {PatternsOf(s) \cup UNION {BindingsOf(p) : p \in UnbPatternsOf(s)} : s \in OpSeqs} :
+                    WellFormed(q)}
 ShapeBatches == {<<p>> : p \in ShapePrograms}
 
 PF == Uniform(<<"lit", "lit", "recT">>, "none")      \* fast, generous timeout
